@@ -319,6 +319,11 @@ class MSRun:
         open_send = self.m_open("send")
         open_recv = self.m_open("recv")
 
+        # receivers that are blocked with a pending wait and for which no cancellation was requested, before/after
+        live_before = [t for t, i in self.cur.items()
+                       if i and i["kind"] == "recv" and i["stage"] == "wait" and not i["creq"]
+                       and not pre.get(t, False) and t != (a if c == RESUME else None)]
+
         # ---- classify the step -------------------------------------------------------------
         send_attempt = c == SENDNW or (c == RESUME and info and info["kind"] == "send" and info["stage"] == "ck")
         recv_attempt = c == RECVNW or (c == RESUME and info and info["kind"] == "recv" and info["stage"] == "ck")
@@ -421,6 +426,30 @@ class MSRun:
         if open_recv == 0 and pend_send:
             self._viol("C13", f"every receive clone is closed but sender task(s) {pend_send} stay blocked")
 
+        # ---- C12: a receiver only ever waits when there is nothing to receive (state invariant, every step) ----
+        live_after = [t for t in pend_recv if not self.cur[t]["creq"]]
+        if wr1 > 0 and (buf1 > 0 or ws1 > 0):
+            self._viol("C12", f"{buf1} item(s) sit in the buffer and {ws1} sender(s) are blocked while "
+                              f"{wr1} receiver(s) are waiting (blocked receivers without pending cancellation: {live_after})")
+        elif live_after and (buf1 > 0 or ws1 > 0):
+            self._viol("C12", f"{buf1} item(s) sit in the buffer and {ws1} sender(s) are blocked while receiver task(s) "
+                              f"{live_after} without pending cancellation stay blocked")
+        if len(in_recv_wait) >= 2:
+            self.flags.add("two_or_more_blocked_receivers")
+
+        # ---- C13: the last send clone closes: remaining items must be handed out before any EndOfStream ------
+        if c == CLOSE and open_send == 0 and os0 > 0:
+            for t in in_recv_wait:
+                self.cur[t]["closed_with"] = (buf0, ws0)
+            if wr0 > 0 and (buf0 > 0 or ws0 > 0):
+                self._viol("C13", f"the last send clone was closed while {wr0} receiver(s) wait although {buf0} buffered / "
+                                  f"{ws0} pending sender item(s) remain: they are woken without draining them")
+        if recv_wake and code == EOS:
+            cw = info.get("closed_with")
+            if cw and (cw[0] > 0 or cw[1] > 0):
+                self._viol("C13", f"a blocked receiver (task {a}) was woken with EndOfStream although {cw[0]} buffered / "
+                                  f"{cw[1]} pending sender item(s) remained when the send side closed")
+
         # ---- C12: buffer bound ---------------------------------------------------------------
         if buf1 > self.maxbuf:
             self._viol("C12", f"buffer holds {buf1} items, max_buffer_size is {self.maxbuf}")
@@ -445,6 +474,20 @@ class MSRun:
                 rec["state"] = "failed"
             else:
                 rec["state"] = "failed"   # WouldBlock / Closed / Broken: never entered the stream
+            # blocked receivers are served: a send must not buffer / block / give up while a live receiver waits,
+            # and must not overtake items that arrived earlier
+            if code in (DONE, BLOCKED, WOULDBLOCK) and live_before:
+                handed = code == DONE and wr1 < wr0 and buf1 == buf0
+                if not handed:
+                    how = {DONE: "put the item into the buffer", BLOCKED: "blocked", WOULDBLOCK: "raised WouldBlock"}[code]
+                    self._viol("C12", f"send of item {x} {how} although receiver task(s) {live_before} are blocked "
+                                      f"without a pending cancellation (blocked receivers not served)")
+            if code == DONE and wr1 < wr0 and buf1 == buf0 and (buf0 > 0 or ws0 > 0):
+                self._viol("C12", f"FIFO: item {x} was handed to a waiting receiver while {buf0} buffered / {ws0} "
+                                  f"blocked-sender item(s) that arrived earlier are still undelivered (overtaking)")
+            if live_before and any(i and i["kind"] == "recv" and i["stage"] == "wait" and i["creq"]
+                                   for i in self.cur.values()):
+                self.flags.add("send_meets_cancelled_head_and_live_receiver")
             # receivers whose cancellation is pending must be skipped
             skipped = [t for t, i in self.cur.items() if i and i["kind"] == "recv" and i["stage"] == "wait" and i["creq"]]
             if skipped and wr0 > 0 and code in (DONE, BLOCKED, WOULDBLOCK):
@@ -621,37 +664,103 @@ PROFILES = {
 BUFSIZES = [0, 0, 1, 1, 2, 3, math.inf]
 
 
-def random_case(rng: random.Random, nsteps: int, profile: str):
-    maxbuf = rng.choice(BUFSIZES)
-    ntasks = rng.choice([2, 3, 3, 4, 5])
+def case_weights(rng: random.Random, profile: str):
     wts = dict(PROFILES[profile])
     wts[CANCEL] *= rng.choice([0.3, 1, 2.5])
     wts[SCANCEL] *= rng.choice([0.3, 1, 2.5])
     wts[RESUME] *= rng.choice([0.4, 1, 1.6])       # low: many tasks stay blocked at the same time
     wts[CLOSE] *= rng.choice([0.3, 1, 1, 2])
-    bias_send = rng.choice([0.5, 1, 2])
+    return wts, rng.choice([0.5, 1, 2])
+
+
+def walk(r: MSRun, rng: random.Random, wts, bias_send, nsteps: int):
+    for _ in range(nsteps):
+        en = r.enabled()
+        ws = []
+        for (c, t, h) in en:
+            wgt = wts[c]
+            if c in (SENDNW, SEND, SEND_SC):
+                wgt *= bias_send
+            if c in (SENDNW, SEND, SEND_SC, RECVNW, RECV, RECV_SC, CLONE) and not r.m_handles[h][1]:
+                wgt *= 0.12          # operations on closed handles: keep some
+            if c == CLOSE and not r.m_handles[h][1]:
+                wgt *= 0.1
+            ws.append(wgt)
+        c, t, h = rng.choices(en, ws)[0]
+        d = 0
+        if c in (SENDNW, SEND, SEND_SC):
+            d = r.next_item
+            r.next_item += 1
+        r.do(c, t, h, d)
+
+
+def random_case(rng: random.Random, nsteps: int, profile: str):
+    maxbuf = rng.choice(BUFSIZES)
+    ntasks = rng.choice([2, 3, 3, 4, 5])
+    wts, bias_send = case_weights(rng, profile)
     r = new_run(maxbuf, ntasks)
     r.prefix_len = 0
     try:
         with r:
-            for _ in range(nsteps):
-                en = r.enabled()
-                ws = []
-                for (c, t, h) in en:
-                    wgt = wts[c]
-                    if c in (SENDNW, SEND, SEND_SC):
-                        wgt *= bias_send
-                    if c in (SENDNW, SEND, SEND_SC, RECVNW, RECV, RECV_SC, CLONE) and not r.m_handles[h][1]:
-                        wgt *= 0.12          # operations on closed handles: keep some
-                    if c == CLOSE and not r.m_handles[h][1]:
-                        wgt *= 0.1
-                    ws.append(wgt)
-                c, t, h = rng.choices(en, ws)[0]
-                d = 0
-                if c in (SENDNW, SEND, SEND_SC):
-                    d = r.next_item
+            walk(r, rng, wts, bias_send, nsteps)
+            r.prefix_len = len(r.ops)
+            r.quiesce()
+    except BaseException:  # noqa: BLE001
+        r.crash = traceback.format_exc()[-1500:]
+    return r
+
+
+def directed_case(rng: random.Random, profile: str):
+    """Directed family: >= 2 receivers blocked, the head one(s) cancelled (native or through their CancelScope) and NOT
+    yet resumed, then - in the same cycle - one or more sends, optionally followed by closing every send clone;
+    then everybody is resumed in a random order and a short random walk follows."""
+    maxbuf = rng.choice(BUFSIZES)
+    ntasks = rng.choice([3, 4, 4, 5])
+    wts, bias_send = case_weights(rng, profile)
+    r = new_run(maxbuf, ntasks)
+    r.prefix_len = 0
+    try:
+        with r:
+            if rng.random() < 0.3:
+                walk(r, rng, wts, bias_send, rng.choice([2, 4, 6]))
+            idle = [t for t, p in r.world.puppets.items() if p.at_decision]
+            rh = [h for h, (sd, o) in r.m_handles.items() if sd == "recv" and o]
+            sh = [h for h, (sd, o) in r.m_handles.items() if sd == "send" and o]
+            if len(idle) >= 3 and rh and sh:
+                sender = idle[-1]
+                recvs = idle[:-1][:rng.choice([2, 2, 3])]
+                for t in recvs:
+                    r.do(rng.choice([RECV, RECV_SC]), t, rng.choice(rh), 0)
+                for t in recvs:
+                    if r.world.runnable(r.world.puppets[t]):
+                        r.do(RESUME, t, 0, 0)
+                heads = recvs[:rng.choice([1, 1, 2])] if len(recvs) > 2 else recvs[:1]
+                for t in heads:
+                    p = r.world.puppets[t]
+                    if p.at_decision:
+                        continue
+                    scoped = r.cur[t] and r.cur[t].get("scope") is not None
+                    r.do(SCANCEL if (scoped and rng.random() < 0.6) else CANCEL, t, 0, 0)
+                for _ in range(rng.choice([1, 1, 2, 3])):
+                    p = r.world.puppets[sender]
+                    if not p.at_decision:
+                        break
+                    x = r.next_item
                     r.next_item += 1
-                r.do(c, t, h, d)
+                    kind = rng.choice([SENDNW, SENDNW, SEND, SEND_SC])
+                    r.do(kind, sender, rng.choice(sh), x)
+                    if kind != SENDNW and r.world.runnable(p):
+                        r.do(RESUME, sender, 0, 0)
+                if rng.random() < (0.6 if profile == "C13" else 0.3):
+                    for h in [h for h, (sd, o) in r.m_handles.items() if sd == "send" and o]:
+                        r.do(CLOSE, 0, h, 0)
+                order = [t for t, p in r.world.puppets.items() if not p.at_decision]
+                rng.shuffle(order)
+                for t in order:
+                    p = r.world.puppets[t]
+                    if not p.at_decision and r.world.runnable(p) and rng.random() < 0.8:
+                        r.do(RESUME, t, 0, 0)
+            walk(r, rng, wts, bias_send, rng.choice([0, 3, 8]))
             r.prefix_len = len(r.ops)
             r.quiesce()
     except BaseException:  # noqa: BLE001
@@ -700,6 +809,16 @@ def scenario_cases():
     S.append((0, 2, [RECV_SC, 1, 1, 0, RESUME, 1, 0, 0, SCANCEL, 1, 0, 0, SENDNW, 2, 0, 1, RESUME, 1, 0, 0]))
     S.append((1, 3, [RECV_SC, 1, 1, 0, RESUME, 1, 0, 0, RECV, 2, 1, 0, RESUME, 2, 0, 0, SCANCEL, 1, 0, 0,
                      SENDNW, 3, 0, 1, RESUME, 1, 0, 0, RESUME, 2, 0, 0]))
+    # two receivers blocked, the head one cancelled in the same cycle as the send: the live one must get the item;
+    # the next send must not overtake; closing the send side afterwards must not produce EndOfStream before the drain
+    S.append((1, 3, [RECV, 1, 1, 0, RESUME, 1, 0, 0, RECV, 2, 1, 0, RESUME, 2, 0, 0, CANCEL, 1, 0, 0,
+                     SENDNW, 3, 0, 1, SENDNW, 3, 0, 2, RESUME, 2, 0, 0, RESUME, 1, 0, 0, RECVNW, 1, 1, 0]))
+    S.append((1, 3, [RECV_SC, 1, 1, 0, RESUME, 1, 0, 0, RECV, 2, 1, 0, RESUME, 2, 0, 0, SCANCEL, 1, 0, 0,
+                     SENDNW, 3, 0, 1, CLOSE, 0, 0, 0, RESUME, 2, 0, 0, RESUME, 1, 0, 0]))
+    S.append((0, 3, [RECV, 1, 1, 0, RESUME, 1, 0, 0, RECV, 2, 1, 0, RESUME, 2, 0, 0, CANCEL, 1, 0, 0,
+                     SEND, 3, 0, 1, RESUME, 3, 0, 0, RESUME, 2, 0, 0, RESUME, 1, 0, 0]))
+    S.append((0, 3, [RECV, 1, 1, 0, RESUME, 1, 0, 0, RECV, 2, 1, 0, RESUME, 2, 0, 0, CANCEL, 1, 0, 0,
+                     SENDNW, 3, 0, 1, RESUME, 2, 0, 0, RESUME, 1, 0, 0]))
     # same with native cancellation of the pending wait
     S.append((0, 2, [RECV, 1, 1, 0, RESUME, 1, 0, 0, CANCEL, 1, 0, 0, SENDNW, 2, 0, 1, RESUME, 1, 0, 0]))
     # hand-over cycle: item handed over, then the receiver's scope is cancelled: the item must arrive
@@ -737,15 +856,17 @@ NEED_FLAGS = {
             "scope_cancel_in_handover_cycle", "send_meets_receiver_with_pending_cancellation",
             "send_meets_scope_cancelled_receiver", "blocked_receive_gets_item", "blocked_send_cancelled",
             "interrupted_send_item_delivered", "cancel_sender_after_wakeup", "cancel_in_checkpoint",
-            "deliver_retry_run", "item_lost_by_native_cancel_documented_scope"],
+            "deliver_retry_run", "item_lost_by_native_cancel_documented_scope",
+            "two_or_more_blocked_receivers", "send_meets_cancelled_head_and_live_receiver"],
     "C13": ["clone", "double_close", "eos", "broken", "eos_wakes_blocked_receiver", "broken_wakes_blocked_sender",
             "last_send_close_with_blocked_receivers", "last_recv_close_with_blocked_senders",
-            "receive_side_closed_with_buffered_items", "items_stay_in_buffer_after_receive_side_closed"],
+            "receive_side_closed_with_buffered_items", "items_stay_in_buffer_after_receive_side_closed",
+            "two_or_more_blocked_receivers", "send_meets_cancelled_head_and_live_receiver"],
 }
 NONTRIVIAL = {
     "C12": {"handed_to_blocked_receiver", "receive_takes_from_blocked_sender", "cancel_blocked_receiver",
             "cancel_blocked_sender", "native_cancel_in_handover_cycle", "scope_cancel_in_handover_cycle",
-            "send_meets_receiver_with_pending_cancellation"},
+            "send_meets_receiver_with_pending_cancellation", "send_meets_cancelled_head_and_live_receiver"},
     "C13": {"eos", "broken", "last_send_close_with_blocked_receivers", "last_recv_close_with_blocked_senders",
             "double_close"},
 }
@@ -825,8 +946,13 @@ def check(prop: str, tier: str) -> int:
         runs.append(run_script(mb, nt, ops))
     n_scen = len(runs) - n_corpus
     n_random = 500 if tier == "quick" else 9000
+    n_directed = 0
     for i in range(n_random):
-        runs.append(random_case(rng, rng.choice([8, 12, 18, 26, 40, 60]), prop))
+        if i % 5 == 0:
+            runs.append(directed_case(rng, prop))
+            n_directed += 1
+        else:
+            runs.append(random_case(rng, rng.choice([8, 12, 18, 26, 40, 60]), prop))
     # exhaustive small scope
     if prop == "C12":
         alpha = {SENDNW, RECVNW, SEND, RECV, RESUME, CANCEL}
@@ -948,12 +1074,15 @@ def check(prop: str, tier: str) -> int:
                 "receive_nowait on any clone incl. closed ones, with or without an enclosing CancelScope; blocked task: "
                 "resume if its wake-up is queued, native Task.cancel(), cancel() of its CancelScope, re-run of "
                 "_deliver_cancellation; clone/close of any handle), buffer sizes 0,1,2,3,inf, 2-5 tasks, up to 4 "
-                "clones per side, then quiescence + drain; plus hand-written corner scenarios and exhaustive "
-                "enumeration of all enabled sequences over a restricted alphabet to a fixed depth; profile "
+                "clones per side, then quiescence + drain; plus a directed family (every 5th case: >= 2 receivers "
+                "blocked, head one(s) cancelled natively or through their CancelScope and not yet resumed, sends in "
+                "the same cycle, optionally all send clones closed, random resume order), hand-written corner "
+                "scenarios and exhaustive enumeration of all enabled sequences over a restricted alphabet to a fixed depth; profile "
                 + prop + "; non-trivial = reaches one of " + ", ".join(sorted(NONTRIVIAL[prop])),
         "exhaustive_small_scope_cases": n_ex,
         "exhaustive_scopes_(maxbuf,tasks,depth)": scopes,
         "scenario_cases": n_scen,
+        "directed_cases_(>=2_blocked_receivers,_head_cancelled,_send_in_the_same_cycle)": n_directed,
         "corpus_cases": n_corpus,
         "reached": flags,
         "op_distribution": opcount,
